@@ -1,6 +1,7 @@
 package main
 
 import (
+	"fmt"
 	"go/token"
 	"go/types"
 
@@ -212,6 +213,10 @@ func (c *Ctx) ruleRetryRequeue(rr *RuleRep, rr18 *RuleRep, modeOpt ...string) {
 	}
 	dst := failEdge.B.Succs[failEdge.K]
 	region := ReachableFromBlock(f, dst, PathQ{})
+	// every other way out of the loop: nothing that was not attempted may be left behind
+	if mode == "loss" || mode == "multiset" {
+		c.ruleRetryLoopExits(rr, a, f, key, iv.call, iv.idx, failEdge, tailOf, cursor != nil)
+	}
 	// nothing is invoked after the first failure
 	if loss || mode == "order" {
 	} else if region[iv.call] {
@@ -350,6 +355,121 @@ func (c *Ctx) ruleRetryRequeue(rr *RuleRep, rr18 *RuleRep, modeOpt ...string) {
 	if rr18 != nil {
 		c.requireOnFailure(rr18, a, f, dst, iv.call, key)
 	}
+}
+
+// ruleRetryLoopExits: the Retry loop is left (a) through its header when the entries are exhausted, (b) through the failure
+// edge (checked separately), or (c) through some other edge — a break or return added to the loop. On (c) every entry that
+// was not attempted must be put back: the remainder from the current entry when the edge is taken before the invocation,
+// from the next one when it is taken after it.
+func (c *Ctx) ruleRetryLoopExits(rr *RuleRep, a *retryAnchors, f *ssa.Function, key string, call *ssa.Call, idx ssa.Value, failEdge *ifEdge, tailOf func(ssa.Value) (int64, bool, bool), pop bool) {
+	// the loop: blocks that reach the invocation and are reached from it
+	fwd := map[*ssa.BasicBlock]bool{}
+	var walk func(b *ssa.BasicBlock, seen map[*ssa.BasicBlock]bool, next func(*ssa.BasicBlock) []*ssa.BasicBlock)
+	walk = func(b *ssa.BasicBlock, seen map[*ssa.BasicBlock]bool, next func(*ssa.BasicBlock) []*ssa.BasicBlock) {
+		for _, s := range next(b) {
+			if !seen[s] {
+				seen[s] = true
+				walk(s, seen, next)
+			}
+		}
+	}
+	walk(call.Block(), fwd, func(b *ssa.BasicBlock) []*ssa.BasicBlock {
+		var out []*ssa.BasicBlock
+		for k, s := range b.Succs {
+			if !edgeInfeasible(b, k) {
+				out = append(out, s)
+			}
+		}
+		return out
+	})
+	bwd := map[*ssa.BasicBlock]bool{}
+	walk(call.Block(), bwd, func(b *ssa.BasicBlock) []*ssa.BasicBlock { return b.Preds })
+	loop := map[*ssa.BasicBlock]bool{}
+	for b := range fwd {
+		if bwd[b] {
+			loop[b] = true
+		}
+	}
+	if !loop[call.Block()] {
+		return // not a loop (single execution): nothing to check here
+	}
+	var header *ssa.BasicBlock
+	for b := range loop {
+		dom := true
+		for o := range loop {
+			if !b.Dominates(o) {
+				dom = false
+			}
+		}
+		if dom {
+			header = b
+		}
+	}
+	failDst := failEdge.B.Succs[failEdge.K]
+	n := 0
+	for b := range loop {
+		for k, s := range b.Succs {
+			if loop[s] || edgeInfeasible(b, k) {
+				continue
+			}
+			if b == header {
+				continue // exhausted
+			}
+			if (b == failEdge.B && k == failEdge.K) || failDst.Dominates(b) {
+				continue // the failure edge and what follows it
+			}
+			n++
+			after := call.Block().Dominates(b)
+			need := int64(0)
+			if after {
+				need = 1
+			}
+			// on every path from this exit a store re-queues the remainder starting at most at `need`
+			isKeep := func(in ssa.Instruction) bool {
+				st, ok := in.(*ssa.Store)
+				if !ok {
+					return false
+				}
+				if _, isRQ := isAddrOfField(st.Addr, a.RetryQueue); !isRQ {
+					return false
+				}
+				_, elems, ok := c.appendChain(st.Val)
+				if !ok {
+					return false
+				}
+				for _, e := range elems {
+					if e.Spread == nil {
+						continue
+					}
+					if d, whole, ok := tailOf(e.Spread); ok && (whole || d <= need) {
+						return true
+					}
+				}
+				return false
+			}
+			first := s.Instrs[0]
+			okKeep := isKeep(first)
+			if !okKeep {
+				_, okKeep = MustFollow(f, first, isKeep, func(in ssa.Instruction) bool { return !realExit(in) }, PathQ{})
+			}
+			k2 := fmt.Sprintf("%s/early-exit", key)
+			pos := b.Instrs[len(b.Instrs)-1].Pos()
+			for i := len(b.Instrs) - 1; i >= 0 && !pos.IsValid(); i-- {
+				pos = b.Instrs[i].Pos()
+			}
+			for i := 0; i < len(s.Instrs) && !pos.IsValid(); i++ {
+				pos = s.Instrs[i].Pos()
+			}
+			if okKeep {
+				rr.OK(k2, pos, "the loop can be left early here; the entries not attempted are put back first")
+			} else if after {
+				rr.Bad(k2, pos, "the Retry loop can be left here after an entry completed without putting the remaining entries back into the retry queue: queued requests are lost")
+			} else {
+				rr.Bad(k2, pos, "the Retry loop can be left here before the current entry was attempted without putting it and the remaining entries back into the retry queue: queued requests are lost")
+			}
+		}
+	}
+	_ = n
 }
 
 func lastExitOf(f *ssa.Function, region map[ssa.Instruction]bool) ssa.Instruction {
